@@ -1,0 +1,153 @@
+//go:build verif
+
+package verifhook
+
+import (
+	"runtime"
+	"sync"
+	"sync/atomic"
+	"time"
+)
+
+// Note is a (site, detail) record left by a hook.
+type Note struct {
+	Site   string
+	Detail string
+}
+
+var (
+	activity atomic.Uint64
+	inflight atomic.Int64
+	calls    atomic.Uint64
+
+	mu       sync.Mutex
+	counters = map[string]uint64{}
+	notes    []Note
+	seed     uint64
+	pct      int // default probability (0-100) that a point perturbs
+	sitePct  map[string]int
+)
+
+const maxNotes = 8192
+
+// Configure sets the perturbation seed and intensities and clears counters and
+// notes. pct is the default percentage of Point calls that perturb the
+// schedule; perSite overrides it for named sites.
+func Configure(s uint64, defaultPct int, perSite map[string]int) {
+	mu.Lock()
+	defer mu.Unlock()
+	seed = s
+	pct = defaultPct
+	sitePct = perSite
+	counters = map[string]uint64{}
+	notes = nil
+	calls.Store(0)
+}
+
+func splitmix(x uint64) uint64 {
+	x += 0x9e3779b97f4a7c15
+	x = (x ^ (x >> 30)) * 0xbf58476d1ce4e5b9
+	x = (x ^ (x >> 27)) * 0x94d049bb133111eb
+	return x ^ (x >> 31)
+}
+
+func hashSite(s string) uint64 {
+	var h uint64 = 1469598103934665603
+	for i := 0; i < len(s); i++ {
+		h ^= uint64(s[i])
+		h *= 1099511628211
+	}
+	return h
+}
+
+// Point is a schedule perturbation point. It must only be called where no lock
+// is held.
+func Point(site string) {
+	mu.Lock()
+	counters["point."+site]++
+	p := pct
+	if v, ok := sitePct[site]; ok {
+		p = v
+	}
+	s := seed
+	mu.Unlock()
+	if p <= 0 {
+		return
+	}
+	n := calls.Add(1)
+	r := splitmix(s ^ hashSite(site) ^ (n * 0x9e3779b97f4a7c15))
+	if int(r%100) >= p {
+		return
+	}
+	r = splitmix(r)
+	switch k := r % 100; {
+	case k < 55:
+		runtime.Gosched()
+	case k < 95:
+		time.Sleep(time.Duration(1+(r>>8)%200) * time.Microsecond)
+	default:
+		time.Sleep(time.Duration(200+(r>>8)%1800) * time.Microsecond)
+	}
+}
+
+// Count bumps a coverage counter.
+func Count(site string) {
+	mu.Lock()
+	counters[site]++
+	mu.Unlock()
+}
+
+// AddNote bumps the site counter and records a detail string.
+func AddNote(site, detail string) {
+	mu.Lock()
+	counters[site]++
+	if len(notes) < maxNotes {
+		notes = append(notes, Note{site, detail})
+	}
+	mu.Unlock()
+}
+
+// Activity marks the creation of a unit of work.
+func Activity() { activity.Add(1) }
+
+// ActivityCount returns the number of units of work created so far.
+func ActivityCount() uint64 { return activity.Load() }
+
+// WrapGo wraps a callback that is about to be started on a new goroutine so
+// that it is counted as in flight until it returns.
+func WrapGo(cb func()) func() {
+	inflight.Add(1)
+	activity.Add(1)
+	return func() {
+		defer inflight.Add(-1)
+		cb()
+	}
+}
+
+// Inflight returns the number of wrapped goroutines not yet finished.
+func Inflight() int64 { return inflight.Load() }
+
+// Counters returns a copy of the coverage counters.
+func Counters() map[string]uint64 {
+	mu.Lock()
+	defer mu.Unlock()
+	m := make(map[string]uint64, len(counters))
+	for k, v := range counters {
+		m[k] = v
+	}
+	return m
+}
+
+// Counter returns a single counter.
+func Counter(site string) uint64 {
+	mu.Lock()
+	defer mu.Unlock()
+	return counters[site]
+}
+
+// Notes returns a copy of the recorded notes.
+func Notes() []Note {
+	mu.Lock()
+	defer mu.Unlock()
+	return append([]Note(nil), notes...)
+}
